@@ -32,7 +32,8 @@ def seeds():
         except Exception:  # noqa
             continue
         own = json.load(open(os.path.join(d, "own.json"))) if os.path.exists(os.path.join(d, "own.json")) else None
-        sw = json.load(open(os.path.join(d, "sweep.json"))) if os.path.exists(os.path.join(d, "sweep.json")) else {}
+        has_sweep = os.path.exists(os.path.join(d, "sweep.json"))
+        sw = json.load(open(os.path.join(d, "sweep.json"))) if has_sweep else {}
         hit = sorted(p for p, c in sw.items() if c.get("exit") == 1)
         o = "-"
         if own:
@@ -40,7 +41,7 @@ def seeds():
                                      " (replayed)" if own.get("replayed") else "")) if own["exit"] == 1 else "exit %d" % own["exit"]
         summ = (meta.get("summary", "") or "").replace("|", "/").replace("\n", " ")[:150]
         need = (meta.get("needs_to_manifest", "") or "").replace("|", "/").replace("\n", " ")[:110]
-        print("| %s | %s | %s (%s) | %s | %s |" % (os.path.basename(d), meta.get("property"), summ, need, o, ", ".join(hit) or "none"))
+        print("| %s | %s | %s (%s) | %s | %s |" % (os.path.basename(d), meta.get("property"), summ, need, o, (", ".join(hit) or "none") if has_sweep else "(round 2: not swept)"))
 
 
 if __name__ == "__main__":
